@@ -15,8 +15,9 @@ package main
 // Scenario `probe`: no reader, k items pending, then Close / CloseAndDiscardQueued; the model says
 // the consumer exits iff (discard or k <= buffer); the implementation must agree.
 // Scenario `stateclose`: the real state.NewState + k unread updates + the real State.Close (hook
-// verifhooks.StateCloseProbe): the consumer goroutine of the update queue must exit. Today it does
-// not for k > 32 because closeUpdateQueue uses Close, not CloseAndDiscardQueued: finding #13a.
+// verifhooks.StateCloseProbe): the consumer goroutine of the update queue must exit (theorem
+// state_close_consumer_exits). Regression for finding #13a (repaired by 7b5e762: closeUpdateQueue
+// uses CloseAndDiscardQueued; with plain Close it did not exit for k > 32).
 
 import (
 	"bufio"
@@ -500,7 +501,7 @@ func runOracleQueue(args []string) int {
 			res.DistinctNontrivial++
 			continue
 		}
-		addViolation("c19queue #13a: State.Close with more than 32 unread updates leaves the consumer goroutine of the state's update queue blocked on `ch <- item` for ever (closeUpdateQueue uses QueuedChannel.Close, not CloseAndDiscardQueued; theorems queue_close_blocks_without_reader, queue_close_leak_witness)",
+		addViolation("c19queue #13a: REGRESSION of 7b5e762: State.Close with unread updates leaves the consumer goroutine of the state's update queue blocked on `ch <- item` (closeUpdateQueue must use CloseAndDiscardQueued; theorems state_close_consumer_exits, queue_close_leak_witness)",
 			"C19-c19queue-13a.txt",
 			fmt.Sprintf("oracle c19queue\n# finding #13a: state.NewState, %d updates queued and not read, State.Close: the update queue's consumer goroutine is still alive 500 ms later (goroutines: %d before, %d now)\n# replay: ./check C19 --replay <this file>\n%s\n", k, base, runtime.NumGoroutine(), line))
 	}
